@@ -394,6 +394,11 @@ def check(run):
             if nslab >= 2 and k % 3 == 0:
                 nch = int(rng.integers(2, nslab + 1))
                 chunkings += [(int(rng.integers(0, nch)), nch)]
+            if nslab >= 3:
+                # a split that does not divide the slabs evenly: its last (shorter) chunk, and the one before it
+                nch = next(n for n in (2, 3, 4, 5) if nslab % n)
+                last = (nslab - 1) // int(np.ceil(nslab / nch))
+                chunkings += [(last, nch)] + ([(last - 1, nch)] if last >= 1 and k % 2 else [])
             for chunk, nch in chunkings:
                 # skip chunkings that select no slab (the constructor cannot handle an empty halo table)
                 n_jump = int(np.ceil(nslab / nch))
